@@ -35,17 +35,27 @@ Definition spec_init (d : disp) : spec :=
 (* the reference merge *)
 Definition expected (sp : spec) : disp := dmax (u_need sp) (disp_of (u_act sp)).
 
-(* [r] is the result the implementation reported for the operation *)
-Definition spec_step (c : N) (sp : spec) (o : op) (r : res) : spec :=
+(* [r] is the result the implementation reported for the operation.
+
+   [strict]: what happens to an outstanding delivery when the trap of its
+   signal is replaced by another command before the action ran.  The property
+   says every delivery of a trapped signal makes "its action" run exactly once;
+   read strictly, the delivery stays outstanding (the action now in force must
+   run).  yash-rs forgets it (TrapSet::set_action installs a state with
+   pending = false), so the theorems are proved for the lenient reading
+   ([strict = false]: outcome left open) and the strict one is refuted on the
+   model (Properties.v); the run-time check uses the strict reading. *)
+Definition spec_step (strict : bool) (c : N) (sp : spec) (o : op) (r : res) : spec :=
   match o with
   | OSetAction c' a _ ovr =>
       if N.eqb c c' then
         match r with
         | ROk =>
-            (* the trap is replaced; whether a delivery caught before still
-               leads to a trap run is not fixed by the property *)
             mkSp a (u_need sp) (u_locked sp && negb ovr)
-                 (match u_pend sp with Yes => Unknown | p => p end)
+                 (match u_pend sp with
+                  | Yes => if strict && is_command a then Yes else Unknown
+                  | p => p
+                  end)
         | _ => sp
         end
       else sp
@@ -67,8 +77,8 @@ Definition spec_step (c : N) (sp : spec) (o : op) (r : res) : spec :=
       if N.eqb c c' then mkSp (u_act sp) (u_need sp) (u_locked sp) No else sp
   end.
 
-Definition spec_steps (c : N) (sp : spec) (ops : list op) (r : res) : spec :=
-  fold_left (fun sp o => spec_step c sp o r) ops sp.
+Definition spec_steps (strict : bool) (c : N) (sp : spec) (ops : list op) (r : res) : spec :=
+  fold_left (fun sp o => spec_step strict c sp o r) ops sp.
 
 (* ---- observations -------------------------------------------------------- *)
 (* what the public API shows for one condition: TrapSet::get_state, and the
@@ -208,9 +218,9 @@ Definition first_failing (l : list (N * bool)) : option N :=
 (* All clauses for one global operation (resolved into [ops]) seen from
    condition c.  Returns the new reference state and the first failing
    clause.  Only the implementation's outputs (r, prev, new, log) are used. *)
-Definition check_sig (c : N) (sp : spec) (ops : list op) (r : res)
+Definition check_sig (strict : bool) (c : N) (sp : spec) (ops : list op) (r : res)
     (prev new : sobs) (log : list disp) : spec * option N :=
-  let sp' := spec_steps c sp ops r in
+  let sp' := spec_steps strict c sp ops r in
   (sp',
    first_failing
      [ (0, negb (is_signal c) || disp_eqb (ob_disp new) (expected sp'));
@@ -245,29 +255,29 @@ Definition calls_for (c : N) (log : list (N * disp)) : list disp :=
   map snd (filter (fun p => N.eqb (fst p) c) log).
 
 (* all conditions in play: new reference states, first failing clause *)
-Fixpoint check_all (sps : list (N * spec)) (ops : list op) (r : res)
+Fixpoint check_all (strict : bool) (sps : list (N * spec)) (ops : list op) (r : res)
     (prev new : list (N * sobs)) (log : list (N * disp))
     : list (N * spec) * option N :=
   match sps, prev, new with
   | (c, sp) :: sps, (_, p) :: prev, (_, n) :: new =>
-      let '(sp', f) := check_sig c sp ops r p n (calls_for c log) in
-      let '(sps', f') := check_all sps ops r prev new log in
+      let '(sp', f) := check_sig strict c sp ops r p n (calls_for c log) in
+      let '(sps', f') := check_all strict sps ops r prev new log in
       ((c, sp') :: sps', match f with Some k => Some k | None => f' end)
   | _, _, _ => ([], None)
   end.
 
 (* first failing clause over a history; None = the oracle accepts *)
-Fixpoint oracle_hist (sps : list (N * spec)) (prev : list (N * sobs))
+Fixpoint oracle_hist (strict : bool) (sps : list (N * spec)) (prev : list (N * sobs))
     (h : list step_obs) : option N :=
   match h with
   | [] => None
   | (o, r, new, log) :: h =>
-      let '(sps', f) := check_all sps (resolve o r) r prev new log in
+      let '(sps', f) := check_all strict sps (resolve o r) r prev new log in
       match f with
       | Some k => Some k
       | None =>
           if negb (cl_take_any o r sps) then Some 9%N
-          else oracle_hist sps' new h
+          else oracle_hist strict sps' new h
       end
   end.
 
